@@ -16,10 +16,14 @@ META = {"text": "TLC explores every interleaving of every generated mailbox prog
         "technique": "TLC model checking of SgKernel + TLC trace validation of real runs (kdrv, hook H1)"}
 
 EXTRA = [
+    # match filters: a filtered receive is pending, a send it rejects is queued behind it, then unfiltered traffic
+    new_prog(perm=[0], actors=[[op("recvf", 1, 1)], [op("sleep", 0, 0, 1), op("puta", 1, 0, 2), op("sleep", 0, 0, 2), op("puta", 1, 0, 2), op("wait", 1), op("wait", 2)],
+                               [op("sleep", 0, 0, 2), op("get", 1), op("sleep", 0, 0, 4), op("get", 1)], [op("sleep", 0, 0, 5), op("sendt", 1, 1, 2)]]),
+    new_prog(perm=[0], actors=[[op("sendt", 1, 2, 1)], [op("sleep", 0, 0, 1), op("sendt", 1, 1, 1)], [op("sleep", 0, 0, 2), op("recvf", 1, 1), op("recvf", 1, 2)]]),
     # an actor ends with an un-waited asynchronous receive / send queued in the middle of the mailbox: the others keep their order
-    new_prog(perm=[0], actors=[[op("geta", 1)], [op("sleep", 0, 0, 1), op("geta", 1), op("wait", 1)],
-                               [op("sleep", 0, 0, 2), op("geta", 1), op("wait", 1)], [op("sleep", 0, 0, 3), op("put", 1, 0, 1), op("put", 1, 0, 1)]]),
-    new_prog(perm=[0], actors=[[op("puta", 1, 0, 2), op("sleep", 0, 0, 20)], [op("sleep", 0, 0, 1), op("puta", 1, 0, 2)],
+    new_prog(perm=[0], actors=[[op("geta", 1), op("sleep", 0, 0, 3)], [op("sleep", 0, 0, 1), op("geta", 1), op("wait", 1)],
+                               [op("sleep", 0, 0, 2), op("geta", 1), op("wait", 1)], [op("sleep", 0, 0, 4), op("put", 1, 0, 1), op("put", 1, 0, 1)]]),
+    new_prog(perm=[0], actors=[[op("sleep", 0, 0, 1), op("puta", 1, 0, 2), op("sleep", 0, 0, 20)], [op("puta", 1, 0, 2), op("sleep", 0, 0, 3)],
                                [op("sleep", 0, 0, 2), op("puta", 1, 0, 2), op("sleep", 0, 0, 20)],
                                [op("sleep", 0, 0, 3), op("puta", 1, 0, 2), op("sleep", 0, 0, 20)],
                                [op("sleep", 0, 0, 4), op("get", 1), op("get", 1), op("get", 1)]]),
